@@ -188,6 +188,7 @@ class Transportation1dSorter {
   std::vector<int> convertAssignmentBack(const std::vector<int> &a) const;
 
  private:
+  int nbSources_;
   std::vector<int> srcOrder;
   std::vector<int> snkOrder;
 };
